@@ -129,14 +129,23 @@ class EncoderWorld(World):
                 ctx.probe("full_intensity_element")
             ctx.state((kind, st["steps"], st["k"], cfg["compensate"], mode, bool(zero.any()), min(nsp, 20)))
 
+        def retained(kept, outs, where, mode):
+            ctx.judged += 1
+            for i, (k, o) in enumerate(zip(kept, outs)):
+                if isinstance(k, torch.Tensor) and (k.shape != o.shape or not torch.equal(k, o)):
+                    ctx.fail("retained_slice_changed", facts(op=where, mode=mode), f"{where}: slice {i} of {len(outs)} changed after it was yielded (the iterator reuses its output storage)")
+                    break
+
         def collect_online(it, where, mode):
-            outs = []
+            outs, kept = [], []
             n = 0
             for sl in it:
                 n += 1
                 if n > st["steps"] + 3:
                     break
                 outs.append(sl.clone())
+                kept.append(sl)         # the caller keeps what it was given: a later step must not rewrite an earlier slice
+            retained(kept, outs, where, mode)
             if n != st["steps"]:
                 ctx.fail("online_count", facts(op=where, mode=mode, got=n), f"{where}: online iterator yielded {n} slices, expected {st['steps']}")
             return outs
@@ -223,6 +232,7 @@ class EncoderWorld(World):
                 for rep in range(2):
                     gen.manual_seed(op["gseed"])
                     outs = ([], [])
+                    kept = ([], [])
                     with ctx.impl("encode interleaved", facts(mode=mode)) as reg:
                         its = (iter(enc(x.clone(), online=True)), iter(enc(x2.clone(), online=True)))
                         done = [0, 0]
@@ -230,7 +240,8 @@ class EncoderWorld(World):
                             if done[who] >= st["steps"]:
                                 continue
                             try:
-                                outs[who].append(next(its[who]).clone())
+                                kept[who].append(next(its[who]))
+                                outs[who].append(kept[who][-1].clone())
                             except StopIteration:
                                 ctx.fail("online_count", facts(op="interleave", mode=mode, got=done[who]),
                                          f"interleaved iterator {who} stopped after {done[who]} slices, expected {st['steps']}")
@@ -246,6 +257,8 @@ class EncoderWorld(World):
                                              f"interleaved iterator {who} stopped after {done[who]} slices, expected {st['steps']}")
                                     break
                                 done[who] += 1
+                        for who in (0, 1):
+                            retained(kept[who], outs[who], f"interleave[{who}]", mode)
                         for who in (0, 1):
                             extra = sum(1 for _ in its[who])
                             if extra:
